@@ -52,7 +52,9 @@ func (x *Exec) extCall(st *State, call *ast.CallExpr, fn *types.Func, args []*Te
 		return res()
 	case "time.Sleep":
 		// ghost: time slept since the cancellation context was last polled (reset by a contract's ghostset)
-		x.ghostSet(st, "napped", Add(x.ghostGet(st, "napped"), args[0]))
+		if x.unitTracksGhost("napped") {
+			x.ghostSet(st, "napped", Add(x.ghostGet(st, "napped"), args[0]))
+		}
 		return nil
 	case "os.Exit":
 		st.kill()
